@@ -33,7 +33,7 @@ def gen(rng, tier):
         sc['value'] = rng.choice(['int', 'none', 'big', 'big'])
         sc['size'] = rng.choice([1000, 70000, 300000])
     elif ending == 'raise':
-        sc['exc'] = rng.choice(['ExcA', 'ExcB', 'ExcC', 'KeyError', 'ZeroDivisionError'])
+        sc['exc'] = rng.choice(['ExcA', 'ExcB', 'ExcC', 'KeyError', 'ZeroDivisionError', 'ExcD', 'UnicodeDecodeError'])
     else:
         sc['code'] = rng.choice(['none', 0, 1, 3, 'msg'])
     if kind == 'process' and rng.random() < 0.45:
@@ -100,6 +100,8 @@ def target(sc):
     if sc['ending'] == 'return':
         return value_of(sc)
     if sc['ending'] == 'raise':
+        if sc['exc'] == 'UnicodeDecodeError':
+            b'\xff'.decode()
         raise make_exc(sc['exc'], 7)
     code = sc['code']
     if code == 'none':
@@ -282,7 +284,7 @@ def run(sim, sc):
                 seen.append(o if o[0] == 'error' else ('value', None))
                 if kind == 'raised' and is_proc and o[1] != 'OSError' and ending == 'raise':
                     e = detail
-                    if tuple(e.args) != tuple(make_exc(sc['exc'], 7).args):
+                    if sc['exc'] != 'UnicodeDecodeError' and tuple(e.args) != tuple(make_exc(sc['exc'], 7).args):
                         sim.violation('error:args-not-preserved', {'got': repr(e.args), 'want': repr(make_exc(sc['exc'], 7).args)})
                     if not is_remote_exception(e) or 'in target' not in get_remote_traceback(e):
                         sim.violation('error:child-traceback-text-lost', {'exc': repr(e)})
